@@ -160,7 +160,7 @@ func c16Run(c *Ctx, i int, r *gen.R) {
 	formats := c16Formats()
 	jobs := make([]*c16Job, G)
 	for g := range jobs {
-		spec := r.Table(gen.TableOpts{MaxCols: 4, MaxRows: 5, ZeroHeaderOK: true, MinCols: 0,
+		spec := r.Table(gen.TableOpts{MaxCols: 4, MaxRows: 5, ZeroHeaderOK: true, MinCols: 0, Noise: gen.NoiseSkipable | gen.NoiseAlign,
 			Item: func(r *gen.R) gen.ItemSpec {
 				if r.Chance(1, 10) {
 					return c04Item(r)
